@@ -126,8 +126,15 @@ func runProcessor(t *testing.T, c *Case, o RunOpts) *Result {
 
 func genProcessor(r *simrt.RNG) *Case {
 	pl := ProcPlan{Threads: r.Range(1, 4), Buffer: r.Intn(4), Queue: r.Intn(3), Waiter: r.Intn(4) != 0}
+	if r.Intn(10) == 0 {
+		pl.Threads = r.Range(5, 8) // GOMAXPROCS is pinned to 8
+		pl.Buffer = r.Pick(0, 1, 8, 16)
+	}
 	T := pl.Threads
 	n := r.Pick(0, 1, maxInt(T-1, 0), T, T+1, 2*T+1, r.Intn(8))
+	if r.Intn(12) == 0 {
+		n = r.Range(10, 24)
+	}
 	for i := 0; i < n; i++ {
 		v := i + 1
 		if r.Intn(4) == 0 {
@@ -275,6 +282,9 @@ func runMap(t *testing.T, c *Case, o RunOpts) *Result {
 
 func genMap(r *simrt.RNG) *Case {
 	pl := MapPlan{Len: r.Intn(13), Threads: r.Range(1, 4), MaxChunk: r.Range(1, 5)}
+	if r.Intn(10) == 0 {
+		pl.Len, pl.Threads = r.Range(13, 40), r.Range(1, 8)
+	}
 	if r.Intn(5) == 0 {
 		pl.MaxChunk = r.Range(1, 20)
 	}
@@ -452,11 +462,15 @@ func describeHist(h []porcupine.Operation) string {
 func genPromise(r *simrt.RNG) *Case {
 	pl := PromPlan{Recoverable: r.Bool()}
 	nc := r.Range(2, 4)
+	maxOps := 2
+	if r.Intn(8) == 0 {
+		nc, maxOps = r.Range(3, 5), 3
+	}
 	arg := 0
 	setter := false
 	for i := 0; i < nc; i++ {
 		var ops []PromOp
-		for k := r.Range(1, 2); k > 0; k-- {
+		for k := r.Range(1, maxOps); k > 0; k-- {
 			arg++
 			switch x := r.Intn(10); {
 			case x < 4:
